@@ -208,6 +208,9 @@ func cmpEv(w, g Ev) string {
 			return "int-flag"
 		}
 		want := float64(w.Mant) * math.Pow(10, float64(w.Exp-w.Scale))
+		if w.Mant == 0 {
+			want = 0 // (0 x 10^1010 is 0, not 0 x Inf)
+		}
 		if w.Neg {
 			want = -want
 		}
